@@ -22,8 +22,8 @@ pub fn gen_curve(rng: &mut Rng, class: &str) -> Cub {
         }
         "duplicate_extremity" => {
             // control points on a 5-unit grid, drawn until `find_extremities` returns the same parameter twice inside (0.01, 0.99)
-            // (x' or y' has an exactly representable double root, or a root shared by both coordinates): `subdivide_offset`
-            // then forms a zero-length sub-section between the two copies
+            // (x' or y' has an exactly representable double root, or a root shared by both coordinates): before the repair
+            // `subdivide_offset` formed a zero-length sub-section between the two copies
             let g = |rng: &mut Rng| Coord2(rng.i(21) as f64 * 5.0, rng.i(21) as f64 * 5.0);
             for _ in 0..20000 {
                 let w = [g(rng), g(rng), g(rng), g(rng)];
@@ -86,7 +86,7 @@ pub fn check(stats: &mut Stats, w: &Cub, d: f64, class: &str) {
     }
     for f in FUNCTIONS.iter() {
         // failures of offset_scaling on the input class whose `find_extremities` list contains a parameter twice are keyed by that class
-        // (see known_findings.json: zero-length sub-sections in `subdivide_offset`)
+        // (zero-length sub-sections in `subdivide_offset`, repaired by the `dedup_by` after the sort: must not fail any more)
         let tie = if class == "duplicate_extremity" && *f == "offset_scaling" { ".duplicate_extremity" } else { "" };
         // accuracy failures of offset_scaling are keyed by how far the curve turns (the scaling heuristic places its focus on the two end
         // normals: the further the curve turns, the further its normals are from meeting in one point)
